@@ -564,6 +564,10 @@ func modCheck(c *codecCase, wire []byte, res *Result, kind string) {
 			m.SetRetain(to.R == 1)
 			calls = append(calls, "SetRetain")
 		}
+		if from.Dup != to.Dup {
+			m.SetDup(to.Dup == 1)
+			calls = append(calls, "SetDup")
+		}
 		if to.Q > 0 && !c.Auto && (from.Q == 0 || from.ID != to.ID) {
 			m.SetPacketID(uint16(to.ID))
 			calls = append(calls, "SetPacketID")
